@@ -348,9 +348,8 @@ impl IndexManager {
 
         // (the three widths are bytes read from the file: add them as usize, their
         // u8 sum can overflow)
-        let entry_size = header.key_size as usize
-            + header.location_size as usize
-            + header.length_size as usize;
+        let entry_size =
+            header.key_size as usize + header.location_size as usize + header.length_size as usize;
         Ok((header, entry_size))
     }
 
